@@ -677,6 +677,15 @@ def _stream_origin(pk, pv):
     if pk == "bytes":
         return "immutable"
     if _is_bytesio_call(pv):
+        # a new object — but WHAT it holds must not depend on where a stored stream happens to stand: `io.BytesIO(x.read())`
+        # with x a name / attribute (a stream that lives on, e.g. `image.data`) copies only what lies behind x's current
+        # position and moves x (C04_Copies.copy_read_counterexample); `x.getvalue()`, a bytes value, `zf.read(member)` and
+        # `<call>().read()` (a handle opened at the site) do not
+        for a in list(pv.args) + [k.value for k in pv.keywords]:
+            for n in ast.walk(a):
+                if (isinstance(n, ast.Call) and isinstance(n.func, ast.Attribute) and n.func.attr in ("read", "read1", "readall", "readline", "readlines", "readinto")
+                        and isinstance(n.func.value, (ast.Name, ast.Attribute, ast.Subscript)) and not n.args and not n.keywords):
+                    return "other:positional-read:" + ast.unparse(n)[:40]
         return "freshObject"
     if isinstance(pv, ast.IfExp):      # `io.BytesIO(x) if … else None`
         a, b = _stream_origin(pk, pv.body), _stream_origin(pk, pv.orelse)
